@@ -151,6 +151,81 @@ CHECKS.update({
     ),
 })
 
+CHECKS.update({
+    "C04": dict(
+        level="exploration", engine="bex",
+        text="Every string of <= 4 (thorough <= 5) symbols over a 28-symbol byte-level alphabet (one representative of each scanner class plus every trouble-maker: "
+             "quotes, backslash, comment openers, NUL, invalid UTF-8, alias and superscript runes) and every sequence of <= 4 (<= 5) tokens over the 32-token "
+             "value-language alphabet is passed to the real Parser.Parse (generic table) and value.New().Generate with comments and comfort on and off, on the plain "
+             "build with real goroutines; the same for n-fold repetitions of 24 openers up to 64 KiB and for every valid <= 3-token program padded to 64 KiB with "
+             "blanks and comments. A case fails if it panics (recover), kills the process (journaled re-run), does not return (CPU/wall watchdog) or, for the 64 KiB "
+             "families, grows more than 8x in CPU time when the input doubles. Exhaustive within those bounds (14 M calls quick); edge configurations (last binary "
+             "operator also prefix, empty table, nothing optional, 28 priority levels) run on smaller bounds. Deadlock freedom of the tokenizer/parser pair under "
+             "every schedule is decided exactly by C12's parser space under the controlled scheduler.",
+        note="Not 'every 64 KiB byte string'. The time oracle is a loose ratio that a clean quadratic passes. On the plain build a deadlock is detected by a 60 s "
+             "wall-clock watchdog only (never a short wall-clock oracle); the exact analysis is in C12. Trusted: Go recover, process exit status, "
+             "clock_gettime(PROCESS_CPUTIME).",
+        technique="bounded-exhaustive enumeration with arithmetic index->input decoding in recycled child processes; oracle: returns a result or an error (recover, crash pinpointing, CPU/wall watchdog, CPU-time ratio)",
+        design_ref="DESIGN.md §5 C04",
+    ),
+    "C13": dict(
+        level="model_checking", engine="hbfs",
+        text="Explicit-state BFS over all histories of <= 4 (thorough: 5) operations - new source (literal, {}, RealMap, struct wrapper, function map, bin map), put, +, "
+             "replace with a literal / with another map inside and outside the key set, eval, map, accept, combine - executed on the real value.Map objects; after "
+             "every transition every live handle is observed through 20 observers (member access, get, isAvail, ~, size, list, string, map/accept iteration, = against "
+             "rebuilt literals, one-place variants and all peers, JSON export, Go API) against a Go map fixed at creation, plus a complete storage-dump persistence "
+             "check. States are deduplicated on (model, hidden storage-wrapper tree). 34 further sources are explored alone, and replace chains up to length 13/24 with "
+             "put/+/eval/map interleaved at every position cross the depth-10 flattening and the 20-key RealMap threshold. Exhaustive within these bounds (quick "
+             "260 680 / thorough 11.2 M transitions, every one executed on the implementation).",
+        note="Bounded: no fixpoint of storage shapes exists (wrappers nest unboundedly); longer histories are covered only by the replace-chain families. Trusted: the "
+             "overlay accessor's dump covers every field the map code reads. 'replace' with keys outside the original and 'combine' with a missing key accept two "
+             "readings (all observers must agree); states merge different listMap entry orders.",
+        technique="explicit-state BFS over operation histories on real objects with replay from fresh sources, canonical state keys from an overlay-added storage accessor, finite-map reference model",
+        design_ref="DESIGN.md §3.4, §5 C13",
+    ),
+    "C15": dict(
+        level="exploration", engine="bex",
+        text="Every valid program of <= 5 tokens over a 35-token alphabet of the value language (43 k programs; validity decided by the real parser) plus 37 fixed longer "
+             "programs is rendered with every admissible separator of the property's set (blanks, tabs, CR, LF, both comment kinds tight and set off, containing "
+             "quotes/stars/slashes/line breaks, at end and start of input) in every gap one at a time, with every assignment to all gaps at once for programs <= 3 "
+             "(thorough <= 4; <= 5 with a 6-separator set) tokens and every pair of gaps beyond, x comments on/off x comfort on/off. The parse must give the canonical "
+             "rendering's AST, and every node/error line must be the renderer's line of the token that node kind records. All strings and quoted identifiers of <= 3 "
+             "(<= 4) symbols, all aliases/superscripts and all comfort juxtaposition patterns are checked against source string / ASCII spelling / explicit '*'. "
+             "Exhaustive within these bounds (10.4 M evaluations quick, 214 M thorough).",
+        note="Trusted: the check's reference lexer (decides which separators are admissible), the node-kind->token rule read off parser2.go, Go's strings. Optimizer "
+             "removed. Unspecified and counted: line of the inserted comfort '*', comment-without-blank before '(', error at EOF has no line, juxtaposition with "
+             "quoted identifiers.",
+        technique="bounded-exhaustive enumeration of token sequences x separator assignments x configurations with a metamorphic oracle (canonical rendering) and a renderer-computed line oracle",
+        design_ref="DESIGN.md §5 C15",
+    ),
+    "C17": dict(
+        level="exploration", engine="bex",
+        text="Every Unicode scalar value as a one-code-point string, every string of <= 2 (thorough: 3) symbols over a 24-symbol trouble alphabet as value and key in "
+             "every list/map representation constructible through the public API (13+1 map, 6+1 list), 19 boundary scalars, and every value tree of height <= 3 with "
+             "<= 2 children per node (thorough: also 4 leaf classes and every such tree below 1-2 further containers, depth 5) is exported by the real JSON exporter; "
+             "encoding/json must accept the document and a token-level decode must yield arrays in order, exactly the key set without duplicates, and every scalar as "
+             "the JSON string of its string form. Exhaustive within these bounds (5.2 M / 53 M cases).",
+        note="Trusted: encoding/json as the standard parser, strconv for the documented string form of scalars, the tree builder internal/exptree. Domain: valid UTF-8, "
+             "distinct keys. Not decided: all binary trees of height >= 4, strings longer than 3 symbols.",
+        technique="bounded-exhaustive enumeration of value trees x representations, decided by decoding the real output with an independent parser",
+        design_ref="DESIGN.md §5 C17",
+    ),
+    "C18": dict(
+        level="exploration", engine="bex",
+        text="Every string of <= 2 (thorough: 3) symbols over a 26-symbol markup alphabet in every data position of the XML exporter and of ToHtml (text, keys, "
+             "attribute values, link targets, style strings / maps / closures, File names and mime types, table formats; inlineStyle on/off), every list/map tree of "
+             "height <= 3 in every representation, every wrapper tree of height <= 2 (thorough: 3), list sizes around maxListSize 0-3 in both dimensions, and "
+             "failing/panicking producers and closures: the complete output is tokenised by encoding/xml (strict) and must be balanced, use only the exporter's "
+             "vocabulary (plus map keys that are XML names), decode in every text and attribute to exactly the value's strings, preserve list order and key sets, and "
+             "ToHtml must return an error, never panic. Exhaustive within these bounds (1.36 M / 38 M cases).",
+        note="Trusted: encoding/xml plus the harness' own end-tag matching, attribute-uniqueness and attribute-normalisation decoder; the HTML reference model in "
+             "cmd/c18/model.go (decoration texts and float formatting accepted as any text). Counted unspecified: raw TAB/LF in ToHtml attribute values, name-space "
+             "meaning of keys with ':' or prefix 'xml', names valid only in XML 1.0 5th edition, indentation next to text in plainList output.",
+        technique="bounded-exhaustive enumeration of value/wrapper trees x exporter settings, decided by tokenising the real output and comparing it with a reference tree",
+        design_ref="DESIGN.md §5 C18",
+    ),
+})
+
 NOT_YET = "check not built yet in this session (planned, see DESIGN.md §9); not claimed until its machinery exists"
 
 def main():
